@@ -144,6 +144,22 @@ pub(crate) mod serializer;
 mod shared;
 pub mod stream;
 
+/// verification hook (`--cfg sozu_verif`): re-exports of private mux kernels for
+/// out-of-tree solver harnesses (Kani). Add-only; absent from every normal build.
+#[cfg(sozu_verif)]
+pub mod verif {
+    pub use super::converter::H2BlockConverter;
+    pub use super::h2::verif as h2;
+    pub use super::h2::{H2ConnectionConfig, H2FloodConfig, H2FloodDetector, H2FloodViolation, H2Settings};
+    pub use super::pkawa::verif as pkawa;
+    pub mod serializer {
+        pub use super::super::serializer::{
+            gen_frame_header, gen_goaway, gen_ping_acknowledgement, gen_rst_stream, gen_settings,
+            gen_window_update, serialize_frame_type,
+        };
+    }
+}
+
 use crate::metrics::names;
 use crate::{
     BackendConnectionError, FrontendFromRequestError, L7ListenerHandler, L7Proxy, ListenerHandler,
